@@ -311,7 +311,7 @@ func normalizeMapInto(cfg *Config, opts *options, from reflect.Value) Error {
 	// order the runtime happens to enumerate the map in.
 	keys := from.MapKeys()
 	sort.Slice(keys, func(i, j int) bool {
-		return mapKeyString(keys[i]) < mapKeyString(keys[j])
+		return mapKeyLess(keys[i], keys[j])
 	})
 
 	for _, k := range keys {
@@ -336,6 +336,22 @@ func mapKeyString(k reflect.Value) string {
 		return k.String()
 	}
 	return fmt.Sprint(k.Interface())
+}
+
+// mapKeyLess orders map keys by the name they spell. Two keys of an interface
+// keyed map can spell the same name ("a" and a named string type holding "a"):
+// those are ordered by their types, so that the order never depends on the
+// order the runtime enumerates the map in.
+func mapKeyLess(a, b reflect.Value) bool {
+	sa, sb := mapKeyString(a), mapKeyString(b)
+	if sa != sb {
+		return sa < sb
+	}
+	return mapKeyType(a) < mapKeyType(b)
+}
+
+func mapKeyType(k reflect.Value) string {
+	return chaseValueInterfaces(k).Type().String()
 }
 
 func normalizeStruct(opts *options, from reflect.Value) (*Config, Error) {
